@@ -216,4 +216,18 @@ let () = each_line (fun line ->
       String.concat " ; " (List.map (fun l ->
         if l = [] then "-" else String.concat "," (List.sort compare (List.map (fun c ->
           match c.c_addr with A4 (ip, _) -> "find_node@" ^ string_of_int (int_of_n ip land 255) | A6 _ -> "?") l))) segs)
+  | "UP" :: fam :: _event :: toks ->
+      let (u, evs) = udp_run_pending (fam = "6") N0 (parse_dgrams toks) in
+      Printf.sprintf "ev=%s %s" (if evs = [] then "-" else String.concat ";" (List.map show_event evs)) (show_ts u.u_ts)
+  | "H3" :: ev :: toks ->
+      let rec anns = function
+        | [] -> []
+        | "A" :: c :: b1 :: b2 :: r ->
+            ((match c with "b" -> FamBoth | "n" -> FamNone | _ -> FamOne),
+             List.map bytes_of_hex (List.filter (fun b -> b <> "~") [b1; b2])) :: anns r
+        | _ -> failwith "anns" in
+      let (ts, outs) = http_announces info_hash (n_of_string ev) (anns toks) in
+      String.concat " / " (List.map (fun evs ->
+        if evs = [] then "-" else String.concat ";" (List.map (function HRetry -> "retry" | HEv e -> show_event e) evs)) outs)
+      ^ " | " ^ show_ts ts
   | _ -> "BADCASE")
